@@ -29,6 +29,8 @@ type topoStep struct {
 	H      string   `json:"h"`
 	N      int      `json:"n"`
 	Routed []string `json:"routed"`
+	Listed []string `json:"listed"`
+	Up     []string `json:"up"`
 	// Mode is the state of the proxy's cluster loop the specification applied this fault in: "settled" (quiescent),
 	// "pending" (a refresh is scheduled, the refresh window has not elapsed) or "down" (the previous fault took the
 	// control connection away and the proxy has not reconnected yet)
@@ -190,6 +192,43 @@ var topoHammer int
 var topoTrace string
 var topoTraceAppend bool
 
+// rushAllowed: the specification applies `next` before the proxy has digested `cur`.  Its fault guards speak about the
+// hosts the proxy knows at that moment, which the driver cannot see (a refresh may or may not have run in between), so
+// the driver only rushes when the guards hold whatever the proxy knows: the control connection is not taken away while
+// an unlisted node is still running (the proxy could fail over to it and keep it), and a node is only taken away when
+// another listed, running node was already confirmed to receive requests.  Otherwise it waits for convergence first.
+func rushAllowed(cur, next topoStep, lastSettled []string) bool {
+	in := func(xs []string, x string) bool {
+		for _, y := range xs {
+			if y == x {
+				return true
+			}
+		}
+		return false
+	}
+	switch next.A {
+	case "dropctrl", "dropall", "remove", "stop", "restart", "mute":
+		for _, h := range cur.Up {
+			if !in(cur.Listed, h) {
+				return false
+			}
+		}
+	}
+	switch next.A {
+	case "remove", "unlist", "stop":
+		ok := false
+		for _, h := range lastSettled {
+			if h != next.H && in(cur.Listed, h) && in(cur.Up, h) {
+				ok = true
+			}
+		}
+		if !ok {
+			return false
+		}
+	}
+	return true
+}
+
 func runTopoBehaviour(beh []topoStep, res *topoResult, base, max time.Duration, budget time.Duration) error {
 	t := tracer.New()
 	e, err := env.Start(env.Options{Nodes: beh[0].N, NumConns: 1, Hooks: true, Tracer: t, Keyspaces: []string{"ks"},
@@ -236,6 +275,8 @@ func runTopoBehaviour(beh []topoStep, res *topoResult, base, max time.Duration, 
 		}(k, hc)
 	}
 	defer func() { close(stopHammer); hwg.Wait() }()
+	// the hosts confirmed to receive requests at the last convergence check: the proxy certainly knows them
+	var lastSettled []string
 	for i, st := range beh {
 		if st.A != "init" {
 			tr.apply(st)
@@ -245,7 +286,7 @@ func runTopoBehaviour(beh []topoStep, res *topoResult, base, max time.Duration, 
 			}
 		}
 		res.Steps++
-		if i+1 < len(beh) && beh[i+1].Mode != "settled" && beh[i+1].Mode != "" {
+		if i+1 < len(beh) && beh[i+1].Mode != "settled" && beh[i+1].Mode != "" && rushAllowed(st, beh[i+1], lastSettled) {
 			// the specification applies the next fault before the proxy has digested this one
 			if beh[i+1].Mode == "pending" {
 				time.Sleep(30 * time.Millisecond) // the event has been received, the refresh window (100 ms) is open
@@ -268,6 +309,7 @@ func runTopoBehaviour(beh []topoStep, res *topoResult, base, max time.Duration, 
 				got2 := tr.probe(3 * (len(st.Routed) + 1))
 				if setEq(got2, st.Routed) {
 					ok = true
+					lastSettled = st.Routed
 					// routing can converge before a scheduled refresh has run (a stopped node drops out by itself):
 					// let the refresh window pass so that the next fault really meets a settled proxy
 					time.Sleep(150 * time.Millisecond)
